@@ -22,7 +22,7 @@ DEVIATIONS = ["EmptyBraceNoFocus", "BraceNoReset", "UnionCover", "StrPatchOOB", 
 ACTIONS = ["Read", "Designate", "Advance", "Focus", "OpenBrace", "EmptyBrace", "StartExpr", "ExprFocus", "AddString",
            "AddScalar", "CloseBrace", "initadd:skip", "initadd:insert-before", "initadd:append", "initadd:replace",
            "initadd:inside-earlier"]
-SCALARS = {"char": "char", "short": "short", "ushort": "unsigned short", "int": "int", "uint": "unsigned", "ptr": "char *"}
+SCALARS = {"char": "char", "short": "short", "ushort": "unsigned short", "float": "float", "double": "double", "int": "int", "uint": "unsigned", "ptr": "char *"}
 
 
 # ------------------------------------------------------------------------------------------------
@@ -40,7 +40,7 @@ def declarator(tab, t, name):
     if ty["kind"] == "arr":
         spec, d = declarator(tab, ty["base"], "")
         return spec, "%s[%s]%s" % (name, ty["n"] or "", d)
-    if ty["kind"] in ("int", "ptr"):
+    if ty["kind"] in ("int", "ptr", "flt"):
         return SCALARS[t], name
     return "%s %s" % (ty["kind"], t), name
 
@@ -134,7 +134,7 @@ def ptr_offsets(tab, t, size):
     ty = tab["ty"][t]
     if ty["kind"] == "ptr":
         return [0]
-    if ty["kind"] == "int":
+    if ty["kind"] in ("int", "flt"):
         return []
     if ty["kind"] == "arr":
         b = tab["ty"][ty["base"]]
